@@ -179,6 +179,8 @@ def setup(ex, fi, con):
 
 def assume_axioms(ex, fr):
     for ax in spec.AXIOMS:
+        if ax.only is not None and not any(ex.fnqual.split("#")[0].endswith(sfx) for sfx in ax.only):
+            continue
         afr = Frame(fr.fi, {}, None)
         afr.spec = True
         try:
